@@ -153,7 +153,7 @@ Section Adversary.
     exists h, In h hs /\
       ((packer_of (h_cfg h) = LegAuth /\ exists r nonce, In r (h_rcpts h) /\
           t = Wrap (box_key (h_sender h) r nonce) (cek_of (h_rnd h))) \/
-       (exists e r m, t = seal e r m)).
+       (packer_of (h_cfg h) = LegAnon /\ exists e r, In r (h_rcpts h) /\ t = seal e r (cek_of (h_rnd h)))).
   Proof.
     intros [h [l [p [Hin [Hp [Hlp Ht]]]]]]. exists h. split; [assumption|].
     destruct (hpack_leg_inv _ _ Hp) as [auth [P Hl]]. subst l. unfold pack_leg in Hlp. cbn [le_prot] in Hlp.
@@ -161,7 +161,8 @@ Section Adversary.
     destruct auth.
     - left. split; [assumption|]. destruct (leg_auth_recs_in _ _ _ _ _ Hr) as [e [nonce [H1 H2]]].
       exists (l_kid r), nonce. split; [assumption|]. rewrite H2. reflexivity.
-    - right. destruct (leg_anon_recs_in _ _ _ _ Hr) as [e [H1 H2]]. rewrite H2. cbn [l_ek]. eexists _, _, _. reflexivity.
+    - right. split; [assumption|]. destruct (leg_anon_recs_in _ _ _ _ Hr) as [e [H1 H2]]. rewrite H2. cbn [l_ek].
+      exists e, (l_kid r). split; [assumption|reflexivity].
   Qed.
 
   (* ---------- inversion of the unpack loops ---------- *)
@@ -284,7 +285,7 @@ Section SenderAuth.
         inversion Hct. reflexivity.
       + exfalso. inversion Heq.
     - (* an honest legacy box: not under a 1PU key *)
-      exfalso. destruct (honest_lek_shape _ _ Hl) as [h [_ [[_ [r [nonce [_ Heq]]]]|[e0 [r [m0 Heq]]]]]]; inversion Heq.
+      exfalso. destruct (honest_lek_shape _ _ Hl) as [h [_ [[_ [r [nonce [_ Heq]]]]|[_ [e0 [r [_ Heq]]]]]]]; inversion Heq.
     - discriminate.
     - left. inversion Heq; subst K c. apply adv_kek_1pu in Hadv as [_ Hzs]. rewrite adv_dh_dh in Hzs.
       rewrite (Hparty _ Hk) in Hzs. exact Hzs.
@@ -362,7 +363,7 @@ Section Integrity.
         assert (Hc : cek = cek_of (h_rnd h)) by (inversion Heq; reflexivity);
         destruct (content_integrity_lemma h _ _ _ _ _ _ Hin Hc Hct CD) as [h' [w' [? [? [? ?]]]]];
         exists h', w'; rewrite Haad; repeat split; assumption.
-    - destruct (honest_lek_shape _ _ Hl) as [h [Hin [[_ [r [nonce [_ Heq]]]]|[e0 [r [m0 Heq]]]]]]; [|inversion Heq].
+    - destruct (honest_lek_shape _ _ Hl) as [h [Hin [[_ [r [nonce [_ Heq]]]]|[_ [e0 [r [_ Heq]]]]]]]; [|inversion Heq].
       left. assert (Hc : cek = cek_of (h_rnd h)) by (inversion Heq; reflexivity).
       destruct (content_integrity_lemma h _ _ _ _ _ _ Hin Hc Hct CD) as [h' [w' [? [? [? ?]]]]].
       exists h', w'. rewrite Haad. repeat split; assumption.
@@ -410,7 +411,7 @@ Section Legacy.
     destruct Hok as [Hh|[Hl|[Hnw|[K [c [Heq Hadv]]]]]].
     - exfalso. destruct (honest_ek_shape _ _ Hh) as [h [_ [[_ [a' [r' [j [_ [_ [_ [Heq _]]]]]]]]|[a' [ze [apu [apv Heq]]]]]]];
         inversion Heq.
-    - destruct (honest_lek_shape _ _ Hl) as [h [Hin [[_ [r' [nonce [_ Heq]]]]|[e0 [r' [m0 Heq]]]]]]; [|inversion Heq].
+    - destruct (honest_lek_shape _ _ Hl) as [h [Hin [[_ [r' [nonce [_ Heq]]]]|[_ [e0 [r' [_ Heq]]]]]]]; [|inversion Heq].
       right. assert (Hc : cek = cek_of (h_rnd h)) by (inversion Heq; reflexivity).
       destruct (content_integrity_lemma hs h _ _ _ _ _ _ Hin Hc Hct CD) as [h' [w' [Hin' [Hp' [Hm Haad]]]]].
       destruct w' as [j'|l'|].
@@ -501,3 +502,67 @@ Section Covered.
       + right. right. left. assumption.
   Qed.
 End Covered.
+
+(* ---------- legacy anoncrypt ---------- *)
+Section LegacyAnon.
+  Variable hs : list henv.
+
+  Lemma seal_open_inv k t c : seal_open k t = Some c -> exists e, t = seal e k c.
+  Proof.
+    unfold seal_open.
+    repeat match goal with |- context [match ?x with _ => _ end] => is_var x; destruct x; try discriminate end.
+    intros H. apply adec_inv in H. subst. eexists. unfold seal, seal_key. rewrite (dh_comm _ k). reflexivity.
+  Qed.
+
+  Lemma cek_honest_dec (c : term) :
+    (exists h, In h hs /\ c = cek_of (h_rnd h)) \/ (forall h, In h hs -> c <> cek_of (h_rnd h)).
+  Proof.
+    induction hs as [|h l IH].
+    - right. intros h [].
+    - destruct (term_eqb c (cek_of (h_rnd h))) eqn:E.
+      + left. exists h. split; [left; reflexivity|apply term_eqb_eq; assumption].
+      + destruct IH as [[h' [Hin Hc]]|Hno].
+        * left. exists h'. split; [right; assumption|assumption].
+        * right. intros h' [<-|Hin].
+          -- intro Hc. rewrite Hc, term_eqb_refl in E. discriminate.
+          -- apply Hno; assumption.
+  Qed.
+
+  (* the legacy anoncrypt packer against an outsider: the payload is an honest legacy anoncrypt envelope's, addressed
+     to the key that opened it — or the content key is nobody's but the adversary's (its own envelope) *)
+  Lemma legacy_anon_lemma party E m fr k :
+    ct_ok hs (le_ct E) ->
+    unpack_leg false party E = Ok (m, fr, k) ->
+    fr = None /\ In k party /\
+    ((exists h, In h hs /\ packer_of (h_cfg h) = LegAnon /\ m = Bytes (h_payload h) /\ In k (h_rcpts h)) \/
+     (exists t cek, seal_open k t = Some cek /\ forall h, In h hs -> cek <> cek_of (h_rnd h))).
+  Proof.
+    intros Hct. unfold unpack_leg.
+    destruct (le_prot E) as [prot|]; [|discriminate].
+    destruct (negb (lp_typ_ok prot)); [discriminate|].
+    destruct (lp_alg prot) eqn:Halg; try discriminate.
+    destruct (find_ver party (lp_recs prot)) as [r|] eqn:F; [|discriminate].
+    destruct (find_ver_in _ _ _ F) as [Hr Hk]. apply mem_In in Hk.
+    destruct (seal_open (l_kid r) (l_ek r)) as [cek|] eqn:SO; [|discriminate].
+    destruct (c_dec cek (t_lphdr prot) (le_iv E) (le_ct E) (le_tag E)) as [m0|] eqn:CD; [|discriminate].
+    intros H. assert (m0 = m /\ fr = None /\ l_kid r = k) as [-> [-> Hkk]] by (inversion H; auto). clear H.
+    split; [reflexivity|]. split; [rewrite <- Hkk; assumption|].
+    destruct (cek_honest_dec cek) as [[h [Hin Hc]]|Hno].
+    - left.
+      destruct (content_integrity_lemma hs h _ _ _ _ _ _ Hin Hc Hct CD) as [h' [w' [Hin' [Hp' [Hm Haad]]]]].
+      destruct w' as [j'|l'|].
+      + exfalso. cbn [aad_of] in Haad. unfold t_lphdr, c_aad in Haad. inversion Haad.
+      + destruct (hpack_leg_inv _ _ Hp') as [auth' [P' Hl']].
+        cbn [aad_of] in Haad. unfold LP, L in Haad. rewrite Hl' in Haad. unfold pack_leg in Haad. cbn [le_prot] in Haad.
+        unfold t_lphdr in Haad. cbn [lp_var lp_typ_ok lp_alg lp_recs] in Haad. rewrite Halg in Haad.
+        destruct auth'; [inversion Haad|]. inversion Haad.
+        match goal with Hx : map t_lrcp _ = map t_lrcp _ |- _ => rename Hx into Hrecs end.
+        assert (Hin_r : In (t_lrcp r) (map t_lrcp (lp_recs prot))) by (apply in_map; assumption).
+        rewrite Hrecs in Hin_r. apply in_map_iff in Hin_r as [r0 [Hr0 Hir0]]. apply t_lrcp_inj in Hr0. subst r0.
+        destruct (leg_anon_recs_in _ _ _ _ Hir0) as [e' [Hkr _]].
+        exists h'. rewrite <- Hkk. repeat split; assumption.
+      + exfalso. unfold hpack, pack in Hp'. destruct (rejects _ _ _ _ _); [discriminate|].
+        destruct (packer_of (h_cfg h')); try discriminate; destruct (pu_alg _ _); discriminate.
+    - right. exists (l_ek r), cek. rewrite <- Hkk. split; assumption.
+  Qed.
+End LegacyAnon.
